@@ -57,6 +57,8 @@ def profile():
 
 INT_BASES = [918273645, 2 ** 31, 2 ** 53, 2 ** 63 - 10 ** 6, 2 ** 64, 2 ** 64 + 2 ** 40, 10 ** 30, 10 ** 19]
 STR_PADS = ["", "", "p" * 300, "q" * 5000, "", "", "", "r" * 70000]
+# fractional seconds of date-time values: none, fewer / exactly / more digits than the value type keeps
+DT_FRACS = ["", ".5", ".123", ".123456", ".1234567", ".123456789", ".123456789012", ".000000"]
 
 
 def assign(t, k, mag=0):
@@ -81,7 +83,7 @@ def assign(t, k, mag=0):
         elif kind == "str":
             v = STR_POOL[(n[0] + k * 3) % len(STR_POOL)] + STR_PADS[mag] + "#%d" % i
         elif kind == "datetime":
-            v = "20%02d-07-%02dT1%d:2%d:3%d" % (31 + k, 1 + i % 27, k % 10, n[0] % 10, i % 10)
+            v = "20%02d-07-%02dT1%d:2%d:3%d" % (31 + k, 1 + i % 27, k % 10, n[0] % 10, i % 10) + DT_FRACS[mag]
         elif kind == "date":
             v = "20%02d-08-%02d" % (41 + k, 1 + i % 27)
         else:
@@ -129,7 +131,7 @@ def value_in_params(kind, v, params):
         return any(v in s for s in strs)
     if kind == "datetime":
         d, tm = v.split("T")
-        return any(d in s and tm in s for s in strs)
+        return any(d in s and tm[:8] in s for s in strs)     # (the value type keeps 6 fraction digits)
     return True
 
 
@@ -351,7 +353,10 @@ def run(ctx):
              ("cmp", "eq", T.call("indexof", s_, T.S("x")), T.I(1)), ("cmp", "eq", s_, T.S("x")),
              ("cmp", "in", s_, T.lst(T.S("x"), T.S("y"))), T.call("contains", s_, T.S("x")),
              ("cmp", "eq", T.call("concat", s_, T.S("x")), u_), ("bool", "or", ("cmp", "gt", a_, T.I(1)), ("cmp", "eq", s_, T.S("x"))),
-             ("cmp", "eq", ("bin", "sub", T.I(1), T.I(2)), a_), ("un", "not", ("cmp", "ge", a_, T.I(1)))]
+             ("cmp", "eq", ("bin", "sub", T.I(1), T.I(2)), a_), ("un", "not", ("cmp", "ge", a_, T.I(1))),
+             ("cmp", "gt", T.ident("d"), T.lit("datetime", "2020-01-01T00:00:00")),
+             ("cmp", "in", T.ident("d"), T.lst(T.lit("datetime", "2020-01-01T00:00:00"), T.lit("datetime", "2020-01-01T00:00:00"))),
+             ("bool", "and", ("cmp", "le", T.lit("datetime", "2020-01-01T00:00:00"), T.ident("d")), ("cmp", "eq", a_, T.I(1)))]
     k = 0
     for mag in range(1, len(INT_BASES)):
         for t in skels:
